@@ -239,3 +239,16 @@ var errInjected = errors.New("verif: injected error")
 func rs(from string) vRead {
 	return vRead{msg: &ndp.RouterSolicitation{}, hop: ndp.HopLimit, from: netip.MustParseAddr(from)}
 }
+
+// metricVal reads one sample of a Memory-backed Metrics ("k=v,k=v" label key); 0 when absent.
+func metricVal(mm *Metrics, name, kvs string) float64 {
+	series, ok := mm.Series()
+	if !ok {
+		return -1
+	}
+	s, ok := series[name]
+	if !ok {
+		return 0
+	}
+	return s.Samples[kvs]
+}
